@@ -177,6 +177,7 @@ PROPS = {
         tests=[
             dict(name="TestRawGraph", quick=4000, thorough=400000, shards_thorough=10),
             dict(name="TestTypedChain", quick=3000, thorough=300000, shards_thorough=6),
+            dict(name="TestConcurrentReplays", quick=3000, thorough=200000, shards_thorough=8, shrinktime="5s"),
             dict(name="FuzzGraph", quick=0, thorough=120, shards_thorough=1, fuzz=True, rapid=False, fuzz_workers=8),
         ],
     ),
